@@ -274,7 +274,7 @@ def _tok_ok(s):
 
 
 def emit_ties(ctx, kind, payload, r, log, dis):
-    from migen.fhdl.specials import Memory, Instance
+    from migen.fhdl.specials import Memory, Instance, WRITE_FIRST
     from migen.fhdl.structure import Signal
     rng = random.Random(len(log))
     text = r.main_source
@@ -329,7 +329,7 @@ def emit_ties(ctx, kind, payload, r, log, dis):
     for mem, mname in mems:
         kinds = []
         for n, port in enumerate(mem.ports):
-            k = "a" if port.async_read else ("w" if port.mode == 0 else "d")
+            k = "a" if port.async_read else ("w" if port.mode == WRITE_FIRST else "d")
             kinds.append(k)
             if k != "a":
                 hclass.append(("a" if k == "w" else "d", mname, n))
@@ -382,9 +382,16 @@ def attr_differential(ctx, dis, n):
     handed to the model in its iteration order, so a generator that stops sorting is caught in this process too."""
     rng = random.Random(ctx.rng.randrange(1 << 30))
     tables = E.real_tables()
+    nt, ncases = run_attr_cases(ctx, [E.gen_attr_case(rng, tables) for _ in range(n)], dis)
+    ctx.cov.add_cases("_generate_attribute vs emitAttrs: random attribute sets (strings + tuples), %d real attr_translate tables" % len(tables),
+                      ncases, nt, False, mode="C")
+    ctx.cov.count("emit: attr_translate tables imported from litex.build", len(tables))
+    ctx.log("_generate_attribute: %d cases (%d with >= 2 emitted attributes)" % (ncases, nt))
+
+
+def run_attr_cases(ctx, allcases, dis):
     cases, reals = [], []
-    for _ in range(n):
-        c = E.gen_attr_case(rng, tables)
+    for c in allcases:
         res = guarded(ctx, dis, "emitattrs", c, lambda: E.real_emit_attrs(c))
         if res is None:
             continue
@@ -399,10 +406,7 @@ def attr_differential(ctx, dis, n):
             dis.append({"kind": "monitor", "case": "emitattrs", "payload": c, "oracle": ["attribute prefix is not the sorted one", txt, E.independent_attr_text(c)]})
         if txt.count(",") >= 1:
             nt += 1
-    ctx.cov.add_cases("_generate_attribute vs emitAttrs: random attribute sets (strings + tuples), %d real attr_translate tables" % len(tables),
-                      len(cases), nt, False, mode="C")
-    ctx.cov.count("emit: attr_translate tables imported from litex.build", len(tables))
-    ctx.log("_generate_attribute: %d cases (%d with >= 2 emitted attributes)" % (len(cases), nt))
+    return nt, len(cases)
 
 
 def nscd_differential(ctx, dis, n):
@@ -553,6 +557,8 @@ def run_payload(ctx, kind, payload):
         dis += run_spec_cases(ctx, [payload], "corpus/spec")
     elif kind in ("convert", "convert-platform", "convert-soc"):
         run_converted(ctx, kind, payload, lambda: produce_converted(kind, payload), dis)
+    elif kind == "emitattrs":
+        run_attr_cases(ctx, [payload], dis)
     return dis
 
 
